@@ -195,7 +195,9 @@ func ruleGC(c *Ctx, rule string) {
 		ask := calls(fn, "ContainerInspect")
 		nf := calls(fn, "IsErrContainerNotFound")
 		ce := calls(fn, "pkg/api/docker.contextError")
-		if len(ask) != 1 || len(nf) != 1 || len(ce) != 1 {
+		if len(ask) == 1 && len(nf) == 1 && len(ce) == 0 {
+			c.ob(rule, fn, "a timed-out inspect is reported as a timeout, never classified", ask[0], false, "DockerInspectContainer never consults contextError: an expired deadline reaches the not-found classification")
+		} else if len(ask) != 1 || len(nf) != 1 || len(ce) != 1 {
 			c.undecided(rule, fn, "ContainerInspect / IsErrContainerNotFound / contextError", nil, "expected one call of each")
 		} else {
 			rr := reachFromEntry(fn, newCut().callInstrs(ask))
